@@ -138,10 +138,11 @@ type TermTable struct {
 	True  *Term
 	False *Term
 	ufs   map[string]string // uf name -> declaration
+	canon map[string]*Term  // single-variable terms by (variable, value table)
 }
 
 func NewTermTable() *TermTable {
-	tt := &TermTable{tab: map[string]*Term{}, vars: map[string]*Var{}, ufs: map[string]string{}}
+	tt := &TermTable{tab: map[string]*Term{}, vars: map[string]*Var{}, ufs: map[string]string{}, canon: map[string]*Term{}}
 	tt.True = tt.mk(&Term{Op: OpConst, S: BoolSort, C: 1})
 	tt.False = tt.mk(&Term{Op: OpConst, S: BoolSort, C: 0})
 	return tt
@@ -198,6 +199,19 @@ func (tt *TermTable) mk(t *Term) *Term {
 			tt.tab[k] = c
 			return c
 		}
+		// single-variable terms with the same value table are the same function of that
+		// variable: keep one representative (semantic hash-consing)
+		var sb strings.Builder
+		fmt.Fprintf(&sb, "%s|%d.%d|", t.SV.Name, t.S.K, t.S.W)
+		for _, x := range t.Tab {
+			fmt.Fprintf(&sb, "%x,", x)
+		}
+		ck := sb.String()
+		if rep, ok := tt.canon[ck]; ok {
+			tt.tab[k] = rep
+			return rep
+		}
+		tt.canon[ck] = t
 	}
 	return t
 }
